@@ -86,6 +86,10 @@ def fixed_histories():
         # a registry duration changes after an observation
         [['add', L('Wait', [0], dur=['reg', 'k0'], ch='ALL')], ['add', L('Rx180', [0])], ['add', L('Wait', [0], dur=['fixed', 3.0], ch='ALL')],
          ['obs', 'listing'], ['setreg', 'k0', 5.0], ['obs', 'listing'], ['obs', 'duration']],
+        # a registry key that was NEVER set (the registry answers its default 0) is assigned for the first time after an observation
+        [['add', L('Wait', [0], dur=['reg', 'k2'], ch='ALL')], ['add', L('Wait', [0], dur=['fixed', 1.0], ch='ALL')],
+         ['add', L('Wait', [1], dur=['fixed', 1.0], ch='ALL', rel=['F', 1])],
+         ['obs', 'duration'], ['setreg', 'k2', 5.0], ['obs', 'duration'], ['obs', 'listing']],
         # duration queried before the operations of a nested block (relation hand-off)
         [['add', L('Wait', [0], dur=['fixed', 5.0], ch='ALL')], ['sub', 1, [L('Wait', [0], dur=['fixed', 1.0], ch='ALL'), L('Barrier', [0, 1]), L('Wait', [1], dur=['fixed', 3.0], ch='ALL')]],
          ['add', L('Wait', [1], dur=['fixed', 4.0], ch='ALL')], ['obs', 'duration'], ['obs', 'listing']],
@@ -103,7 +107,7 @@ def fixed_histories():
     ]
     out = []
     for i, h in enumerate(hs):
-        out.append({'cmds': h, 'env': dict(env, MICROWAVE=5.0) if i in (6, 7) else env, 'reg': reg})
+        out.append({'cmds': h, 'env': dict(env, MICROWAVE=5.0) if i in (7, 8) else env, 'reg': reg})
     return out
 
 
@@ -190,6 +194,7 @@ def c_answer(a):
 def to_coq(c, o):
     reg = c['reg']
     reg_ids = {k: i for i, k in enumerate(sorted(reg))}
+    reg_ids.setdefault('k2', len(reg_ids))        # a key histories may use without it ever being pre-set (default 0 in model and registry)
     counter = [0]
     cmds = clist([c_hcmd(cmd, reg_ids, counter) for cmd in c['cmds']])
     e = c['env']
